@@ -1,7 +1,7 @@
 (* C15 - Wire formats round-trip and parsers accept nothing ambiguous.
    ONLY property statements: each theorem is closed by `exact <lemma>` and followed by Print Assumptions.
    Models: Codec/Varint.v Codec/TlsVec.v Codec/Utf8.v Codec/GroupDataExt.v (tied to the code by codec_diff). *)
-From MDK Require Import Base.Prelude Base.BSet Codec.Varint Codec.TlsVec Codec.Utf8 Codec.GroupDataExt Codec.CodecProofs.
+From MDK Require Import Base.Prelude Base.BSet Codec.Varint Codec.TlsVec Codec.Utf8 Codec.GroupDataExt Codec.CodecProofs Gen.ExtLayout Codec.ExtTie.
 
 (* --- variable-length integers: round trip for every value, with arbitrary following bytes *)
 Theorem C15_varint_roundtrip : forall n bs rest,
@@ -66,6 +66,11 @@ Theorem C15_canonical_refuted : exists relay_norm bs e,
   deserialize relay_norm bs = Some e /\ serialize e <> Some bs.
 Proof. exact canonical_refuted. Qed.
 Print Assumptions C15_canonical_refuted.
+
+(* --- the model's field layout, constants and trailing-byte check are those of the current source text *)
+Theorem C15_layout_tied : layout_tied_statement.
+Proof. exact layout_tied. Qed.
+Print Assumptions C15_layout_tied.
 
 (* --- non-vacuity: a concrete non-trivial value satisfies wf and round-trips by computation *)
 Example C15_wf_example : wf example_norm example_ext = true /\ roundtrip_ok example_norm example_ext = true.
